@@ -319,10 +319,14 @@ class HBKernel(sk.Kernel):
         super().__init__(**kw)
         self.gap_mode, self.gap, self.phase = gap_mode, gap, phase
 
+    after = None          # for gap_mode "fixed-after": only workers born at/after this time use the fixed gap
+
     def heartbeat_of(self, p):
         gap = self.gap
         if self.gap_mode == "worker-timeout" and p.obj is not None:
             gap = p.obj.timeout + EPS
+        if self.gap_mode == "fixed-after" and (self.after is None or p.born_at < self.after - 1e-9):
+            return self.now
         if gap <= 0:
             return self.now
         t0 = p.born_at - self.phase          # heartbeats at t0 + n*gap; the worker notified right when it booted
@@ -330,10 +334,11 @@ class HBKernel(sk.Kernel):
         return max(p.born_at, t0 + n * gap)
 
 
-def master_run(T, gap_mode, gap, phase, script, abrt="die", workers=2, cfg2_timeout=None):
+def master_run(T, gap_mode, gap, phase, script, abrt="die", workers=2, cfg2_timeout=None, after=None, inject=None):
     c0 = sk.make_cfg(workers=workers, timeout=T, graceful_timeout=2)
     c1 = sk.make_cfg(workers=workers, timeout=cfg2_timeout if cfg2_timeout is not None else T, graceful_timeout=2)
-    k = HBKernel(gap_mode, gap, phase, script=script, term="now", abrt=abrt, settle=0)
+    k = HBKernel(gap_mode, gap, phase, script=script, term="now", abrt=abrt, settle=0, inject=inject)
+    k.after = after
     o = sk.run_arbiter([c0, c1, c1], k)
     return k, o
 
@@ -394,7 +399,79 @@ def master_cell(cell):
         if hostile:
             bad.append(("false-kill:after-reload-changing-timeout", "timeout %d -> %d by HUP, idle sync-like workers (heartbeat every timeout/2 as handed to them): signal %d at t=+%.2f" % (
                 T1, T2, hostile[0][2], hostile[0][0] - 1000.0)))
+    elif kind == "reload-busy":
+        # after a HUP that changes the timeout, a worker that is healthy under the NEW timeout (busy, heartbeat every T2 - 0.1 s)
+        _, T1, T2, phase = cell
+        ticks = int(T2 + 6)
+        script = [("tick",)] * 2 + [("sig", "HUP")] + [("tick",)] * ticks
+        k, o = master_run(T1, "fixed-after", T2 - 0.1 + EPS, phase, script, cfg2_timeout=T2, after=1002.0)
+        hostile = [x for x in k.kills if x[2] in (signal.SIGABRT, signal.SIGKILL)]
+        if hostile:
+            bad.append(("false-kill:busy-worker-after-reload-changing-timeout", "timeout %d -> %d by HUP; a worker of the new generation handling requests of %.1f s (shorter than "
+                        "the new timeout) got signal %d at t=+%.2f" % (T1, T2, T2 - 0.1, hostile[0][2], hostile[0][0] - 1000.0)))
+    elif kind == "reload-hung":
+        # after a HUP that LOWERS the timeout, a worker that hangs must be aborted within the new timeout
+        _, T1, T2, phase = cell
+        script = [("tick",)] * 2 + [("sig", "HUP")] + [("tick",)] * 2 + [("hang", 0, "app")] + [("tick",)] * (T2 + 5)
+        k, o = master_run(T1, "fixed", 0.0, phase, script, cfg2_timeout=T2)
+        t0 = 1004.0
+        abrts = [x for x in k.kills if x[2] == signal.SIGABRT]
+        if not abrts:
+            bad.append(("hung-worker-not-aborted:after-reload-lowering-timeout", "timeout %d -> %d by HUP: a worker hung after the reload was not aborted within %d s" % (T1, T2, T2 + 5)))
+        elif abrts[0][0] - t0 > T2 + 2.0 + 1e-6:
+            bad.append(("hung-worker-aborted-late:after-reload", "SIGABRT %.2f s after the hang, new timeout %d" % (abrts[0][0] - t0, T2)))
+    elif kind == "scan-race":
+        # a healthy worker exits (and is reaped by the SIGCHLD handler) at every delivery point of the scans that deal with a hung one
+        _, T = cell
+        script = [("tick",)] * 2 + [("hang", 0, "ignore-abrt")] + [("tick",)] * (T + 4)
+        k0, o0 = master_run(T, "fixed", 0.0, 0.0, script, workers=3)
+        start = k0.quiescent_points[2] if len(k0.quiescent_points) > 2 else 0
+        for idx in range(start, k0.npoints):
+            for ev in (("exit", 1, 0), ("exit", 2, 9)):
+                k, o = master_run(T, "fixed", 0.0, 0.0, script, workers=3, inject={idx: ev})
+                label = k.point_labels[idx] if idx < len(k.point_labels) else "?"
+                if o.end != "horizon" or any(t[0] == "log" and "Unhandled exception" in t[2] for t in k.trace):
+                    bad.append(("master-crashed-during-timeout-scan", "a worker exiting at delivery point %s while the master deals with a hung one: run() ended with %s %s" % (
+                        label, o.end, o.exc or o.code)))
+                    break
+            if bad:
+                break
     return {"cell": cell, "bad": bad}
+
+
+def tmp_roundtrip():
+    """The heartbeat file itself: what last_update() reports must be the time notify() recorded."""
+    import gunicorn.workers.workertmp as WT
+    from vlib import gparse
+    bad = []
+    n = 0
+
+    class T_:
+        now = 0.0
+
+        @staticmethod
+        def monotonic():
+            return T_.now
+    saved = WT.time
+    WT.time = T_
+    try:
+        t = WT.WorkerTmp(gparse.make_cfg())
+        try:
+            for base in (1000.0, 123456.0):
+                for i in range(20):
+                    T_.now = base + i * 0.05
+                    t.notify()
+                    got = t.last_update()
+                    n += 1
+                    if abs(got - T_.now) > 1e-3:
+                        bad.append(("heartbeat-timestamp-inexact", "notify() at monotonic time %.3f, last_update() reports %.3f: the worker looks %.3f s more silent than it is" % (
+                            T_.now, got, T_.now - got)))
+                        return bad, n
+        finally:
+            t.close()
+    finally:
+        WT.time = saved
+    return bad, n
 
 
 def master_cells(gaps, thorough):
@@ -417,6 +494,12 @@ def master_cells(gaps, thorough):
     for (a, b) in ((2, 30), (30, 2), (2, 5), (1, 3)):
         for ph in (0.0, 0.45):
             cells.append(("reload", a, b, ph))
+    for (a, b) in ((2, 30), (2, 5), (1, 3)):
+        cells.append(("reload-busy", a, b, 0.0))
+    for (a, b) in ((30, 2), (5, 2), (30, 1)):
+        cells.append(("reload-hung", a, b, 0.0))
+    for T in ((1, 2, 3) if thorough else (2,)):
+        cells.append(("scan-race", T))
     return cells
 
 
@@ -485,6 +568,10 @@ def real_cell(cell):
 
 def run(ctx):
     gaps, wviols, wcases = worker_side(ctx.thorough)
+    tbad, tn = tmp_roundtrip()
+    wcases += tn
+    for fp, text in tbad:
+        wviols.append(violation("worker:" + fp, text, {"part": "tmp"}))
     mcells = master_cells(gaps, ctx.thorough)
     mres = par.pmap(master_cell, mcells, chunksize=4)
     viols = {v["fingerprint"]: v for v in wviols}
@@ -541,5 +628,8 @@ def replay(case):
     if case["part"] == "master":
         r = master_cell(tuple(case["cell"]))
         return violation("master:" + r["bad"][0][0], r["bad"][0][1], case) if r["bad"] else None
+    if case["part"] == "tmp":
+        tb, _ = tmp_roundtrip()
+        return violation("worker:" + tb[0][0], tb[0][1], case) if tb else None
     gaps, wv, _ = worker_side(False)
     return wv[0] if wv else None
